@@ -53,6 +53,8 @@
   `closeWriter` can do to the destination of the direction that has finished (`CloseWrite` found or not:
   whether and when its far end is SHOWN end-of-stream) — and `Limits` / `lstep` — the limits of the phases
   before the tunnel on the clock of `TState`, none of which is armed once the tunnel is established.
+  The last layer, `AState` / `astep`, is `hstep` with the two ways a copier returns on an ERROR (`abort d k`:
+  the read of its source fails; `writeFail d`: the write to a destination that is gone fails).
 
   Core-only.
 -/
@@ -650,6 +652,155 @@ def lerase : List LStep → List TStep
   | [] => []
   | .t st :: rest => st :: lerase rest
   | .limitExpire :: rest => lerase rest
+
+/-! ### A copy direction that ends with an ERROR
+
+  `copier.copy` (`copy.go`):
+
+      if _, err := io.CopyBuffer(c.dst, c.src, buf); err != nil && !isClosedConnError(err) { log.Error(…) }
+      c.closeWriter(ctx)
+      donec <- struct{}{}
+
+  `io.CopyBuffer` returns the errors of BOTH ends the same way: a failing `Read` of the source (the sending
+  endpoint reset the connection: `ECONNRESET` / `ECONNABORTED`; a TLS leg cut inside a record:
+  `io.ErrUnexpectedEOF`; a record that does not verify: `tls: bad record MAC`) and a failing `Write` to the
+  destination (which is gone: `EPIPE`, `ECONNRESET`).  Whatever the error is, the copier of that direction
+  has finished: it calls `closeWriter` — the destination of a direction whose SOURCE failed is healthy and is
+  the endpoint that has to be told that the stream is over — and reports to `bicopy`, exactly as after a clean
+  end-of-stream.  The only thing the kind of the error decides is whether it is logged.
+
+  The machine below is `hstep` (leg capabilities, the code's `CwPolicy.leave`) with these two ways of
+  finishing on top; the steps of the plain machine are taken as they are (`AStep.s`):
+
+  * `abort d k`     the `Read` of the copier of `d` fails with an error of kind `k`: nothing more is taken
+                    from that source; `closeWriter` is called under `ErrPolicy.always` (the code); the variant
+                    `ErrPolicy.skipOnConnClosed` — which the code must not become — skips it when
+                    `isClosedConnError(err)` ("the connection is gone, nothing left to half-close"), although
+                    it is the SOURCE that is gone;
+  * `writeFail d`   the copier of `d` has read something and its `Write` fails because the destination is gone
+                    (it is the source of the opposite direction, whose copier returned on a read error);
+  * `failed d`      the copier of `d` returned on an error; `returned d` = it returned, one way or the other;
+  * `settle`        `bicopy`'s bookkeeping after a copier has returned: the first one arms the grace timer, the
+                    second one lets `bicopy` return — both legs are closed, whoever had not been shown
+                    end-of-stream is shown it now;
+  * `graceExpire`   is enabled once a copier has returned — by end-of-stream or by an error — and closes both
+                    legs, as in the plain machine.
+
+  The bytes are the plain machine's: `a.h.s` only ever moves by steps of `step`, so everything proved about
+  reachable states of the plain machine (no byte twice, none out of order) holds of it (`AInv.reach`). -/
+
+/-- how `isClosedConnError` sorts the error `io.CopyBuffer` returned -/
+inductive ErrKind where
+  /-- `ECONNRESET`, `ECONNABORTED`, `io.ErrUnexpectedEOF`, http2's closed body, "use of closed network
+      connection" -/
+  | connClosed
+  /-- anything else (`tls: bad record MAC`, a time-out, …) -/
+  | other
+  deriving DecidableEq, Repr
+
+/-- what `copier.copy` does after `io.CopyBuffer` returned an error -/
+inductive ErrPolicy where
+  /-- the code: `closeWriter` whatever the copy returned -/
+  | always
+  /-- the variant: no `closeWriter` after an error `isClosedConnError` recognises -/
+  | skipOnConnClosed
+  deriving DecidableEq, Repr
+
+def ErrPolicy.callsCloseWriter : ErrPolicy → ErrKind → Bool
+  | .always, _ => true
+  | .skipOnConnClosed, .connClosed => false
+  | .skipOnConnClosed, .other => true
+
+structure AState where
+  h : HState := {}
+  /-- the copier of `up` / `down` returned on an error -/
+  failedU : Bool := false
+  failedD : Bool := false
+  /-- a copier has returned: `gracefulCloseAfter` is armed -/
+  grace : Bool := false
+  /-- `bicopy` has returned or the grace timer has fired: the proxy has closed both sockets -/
+  closed : Bool := false
+  /-- the grace timer fired -/
+  expired : Bool := false
+  deriving DecidableEq, Repr
+
+def ainit : AState := {}
+
+def AState.failed (a : AState) : Dir → Bool
+  | .up => a.failedU
+  | .down => a.failedD
+
+def AState.setFailed (a : AState) : Dir → AState
+  | .up => { a with failedU := true }
+  | .down => { a with failedD := true }
+
+/-- the copier of `d` has returned: after end-of-stream (or the forced close), or on an error -/
+def AState.returned (a : AState) (d : Dir) : Bool := (a.h.s.pipe d).done || a.failed d
+
+/-- `closeWriter` on the destination of `d`: a leg with `CloseWrite` shows its far end end-of-stream, a leg
+    without is left alone (`CwPolicy.leave`, finding F48) -/
+def HState.closeWriter (h : HState) (L : Legs) (d : Dir) : HState :=
+  match L.dst d with
+  | .halfClose => h.setShown d
+  | .none => h
+
+/-- `bicopy` after a copier has returned -/
+def AState.settle (a : AState) : AState :=
+  if a.returned .up = true ∧ a.returned .down = true then
+    { a with grace := true, closed := true, h := { a.h with shownU := true, shownD := true } }
+  else { a with grace := true }
+
+inductive AStep where
+  | s (st : Step)
+  | abort (d : Dir) (k : ErrKind)
+  | writeFail (d : Dir)
+  deriving DecidableEq, Repr
+
+/-- steps of the plain machine that the abort layer does not let through: the proxy does nothing to a
+    tunnel it has closed, and a copier that has returned on an error copies and finishes no more -/
+def AState.blocks (a : AState) : Step → Bool
+  | .copy d _ => a.closed || a.failed d
+  | .eof d => a.closed || a.failed d
+  | _ => false
+
+def astep (c : Cfg) (L : Legs) (pol : ErrPolicy) (a : AState) : AStep → Option AState
+  | .s .graceExpire =>
+    if a.closed = false ∧ a.grace = true ∧ a.h.s.phase = .tunnel then
+      match hstep c L .leave a.h .graceExpire with
+      | some h' => some { a with h := h', closed := true, expired := true }
+      | none => some { a with closed := true, expired := true }
+    else none
+  | .s (.eof d) =>
+    if a.blocks (.eof d) = true then none
+    else
+      match hstep c L .leave a.h (.eof d) with
+      | some h' => some ({ a with h := h' }.settle)
+      | none => none
+  | .s st =>
+    if a.blocks st = true then none
+    else
+      match hstep c L .leave a.h st with
+      | some h' => some { a with h := h' }
+      | none => none
+  | .abort d k =>
+    if a.h.s.phase = .tunnel ∧ a.closed = false ∧ a.returned d = false then
+      some (({ a with h := if pol.callsCloseWriter k = true then a.h.closeWriter L d else a.h }.setFailed d).settle)
+    else none
+  | .writeFail d =>
+    if a.h.s.phase = .tunnel ∧ a.closed = false ∧ a.returned d = false ∧ a.failed d.other = true ∧
+        1 ≤ (a.h.s.pipe d).avail then
+      some ((a.setFailed d).settle)
+    else none
+
+def arunFrom (c : Cfg) (L : Legs) (pol : ErrPolicy) : AState → List AStep → Option AState
+  | a, [] => some a
+  | a, st :: rest =>
+    match astep c L pol a st with
+    | none => none
+    | some a' => arunFrom c L pol a' rest
+
+def arun (c : Cfg) (L : Legs) (pol : ErrPolicy) (steps : List AStep) : Option AState :=
+  arunFrom c L pol ainit steps
 
 end C03
 end FwdVerif
